@@ -200,7 +200,7 @@ static void run_item(long idx,void *ctx){
    I.nframes=oc_nframes(I.len48);
    if (I.has_loss) MC_INC(c_loss_streams);
    MC_INC(c_streams); MC_ADD(c_packets,c.n); MC_ADD(c_audio_ms,I.len48/48);
-   if (opt_rfcproc && I.nframes>0){
+   if (opt_rfcproc && I.nframes>0 && it->fam<FAM_SWITCH){   /* advisory only; not repeated for the SWITCH / LEVEL families */
       /* frozen float decoder at 48 kHz stereo = what the RFC procedure uses as the reference file */
       int err,i; OpusDecoder *d=ref_opus_decoder_create(48000,2,&err); long off=0,n=I.len48; float *f=malloc(sizeof(float)*(n+5760)*2),*s=malloc(sizeof(float)*n*2),*m=malloc(sizeof(float)*n); int ok=1;
       for(p=0;p<c.n&&ok;p++){ int r=ref_opus_decode_float(d,c.p[p].len?c.p[p].data:NULL,c.p[p].len,f+off*2,c.p[p].len?5760:c.p[p].dur48,0); if(r!=c.p[p].dur48) ok=0; else off+=r; }
